@@ -44,7 +44,7 @@ var intBounds = map[string][]string{
 	"int8": {"127", "128", "-128", "-129", "255", "256"}, "uint8": {"255", "256", "-1", "128"},
 	"int16": {"32767", "32768", "-32768", "-32769", "65535"}, "uint16": {"65535", "65536", "-1"},
 	"int32": {"2147483647", "2147483648", "-2147483648", "-2147483649", "4294967295"}, "uint32": {"4294967295", "4294967296", "-1"},
-	"int64": {"9223372036854775807", "9223372036854775808", "-9223372036854775808", "-9223372036854775809", "18446744073709551615", "99999999999999999999"},
+	"int64":  {"9223372036854775807", "9223372036854775808", "-9223372036854775808", "-9223372036854775809", "18446744073709551615", "99999999999999999999"},
 	"uint64": {"18446744073709551615", "18446744073709551616", "-1", "9223372036854775808", "99999999999999999999"},
 }
 
